@@ -172,7 +172,13 @@ def coq_eval_shards(workdir, texts, timeout=900):
     try:
         with ThreadPoolExecutor(max_workers=NCPU) as ex:
             futs = [ex.submit(coq_eval, workdir, "cases_%03d" % i, t, timeout) for i, t in enumerate(texts)]
-            return [f.result() for f in futs]
+            res = [f.result() for f in futs]
+        # a coqc that was killed from outside (out of memory while 16 evaluate at once on a loaded
+        # machine: non-zero status and no Coq error message) is evaluated again, alone
+        for i, (rc, out) in enumerate(res):
+            if rc != 0 and "Error" not in out and "rror:" not in out:
+                res[i] = coq_eval(workdir, "cases_%03d" % i, texts[i], timeout)
+        return res
     finally:
         shutil.rmtree(workdir, ignore_errors=True)
 
